@@ -1316,6 +1316,21 @@ func bodyC04(s *Sim) {
 					break
 				}
 			}
+			if len(e.Status.Canary.Nodes) >= 2 && r.IntN(3) != 0 {
+				// the canary node listed first leaves the cluster; the pod on the one listed last is replaced
+				// by a fresh one that has not been labelled yet
+				first, last := e.Status.Canary.Nodes[0], e.Status.Canary.Nodes[len(e.Status.Canary.Nodes)-1]
+				if ln := s.Store.GetNode(last); ln != nil && s.Store.GetNode(first) != nil {
+					for _, p := range s.Store.Pods() {
+						if podNode(p) == first || (podNode(p) == last && isDaemonPod(p, def.NS, def.Name)) {
+							s.Store.Remove(objKey{KPod, p.Namespace, p.Name})
+						}
+					}
+					s.Store.Remove(objKey{KNode, "", first})
+					s.injectPod(cr, ln, PodState{Kind: "ready", AgeSec: 20, Suffix: "-fresh"})
+					s.Stats.NonVacuous["C04.canary-node-gone-unlabelled-pod"]++
+				}
+			}
 			for i := 0; i < s.c02Bound(); i++ {
 				s.step++
 				s.Round(r)
